@@ -591,6 +591,9 @@ func forYaegi(src string) string {
 
 func id(name string, pkgLevel bool) string { return common.L(common.Q(name), common.B(pkgLevel)) }
 
+// idMexpr: a reference to a method through a method expression T.m (third flag of the protocol).
+func idMexpr(name string) string { return common.L(common.Q(name), common.B(true), common.B(true)) }
+
 // argIds lists the identifiers of an operand in the order in which a pre-order walk of the
 // expression meets what they stand for (only those that can matter: package-level variables,
 // functions, methods as "T.m"). A method selector `t0.m0` is one node, met before its operand `t0`:
@@ -606,7 +609,7 @@ func argIds(a argT) []string {
 	case "method":
 		return []string{id("T."+a.W, true), id(a.V, true)}
 	case "mexpr":
-		return []string{id("T."+a.W, true), id(a.V, true)}
+		return []string{idMexpr("T." + a.W), id(a.V, true)}
 	case "callvar", "callfv":
 		return []string{id(a.V, true)}
 	case "passfv":
